@@ -12,6 +12,7 @@ import (
 
 	"github.com/jamf/regatta/storage/table/fsm"
 	"github.com/lni/dragonboat/v4/client"
+	"github.com/lni/dragonboat/v4"
 	sm "github.com/lni/dragonboat/v4/statemachine"
 
 	"verifharness/internal/fsmx"
@@ -28,6 +29,9 @@ type Cluster struct {
 	// FailSyncRead, when non-nil, is returned by the next SyncRead (a transient raft error such as dragonboat.ErrSystemBusy:
 	// the read-index request could not be served); it is consumed by that call.
 	FailSyncRead error
+	// LoseNextAck: the next proposal is committed and applied like every other one, but its caller is told dragonboat.ErrTimeout - the
+	// acknowledgement got lost (a slow quorum, a leader that moved): the outcome is ambiguous for the caller, the entry IS in the log.
+	LoseNextAck bool
 }
 
 func New(n int, typ fsm.SnapshotRecoveryType) (*Cluster, error) {
@@ -99,6 +103,10 @@ func (h Handle) SyncPropose(_ context.Context, _ *client.Session, cmd []byte) (s
 	r, ok := res[idx]
 	if !ok {
 		return sm.Result{}, fmt.Errorf("simraft: no result for entry %d", idx)
+	}
+	if h.C.LoseNextAck {
+		h.C.LoseNextAck = false
+		return sm.Result{}, dragonboat.ErrTimeout
 	}
 	return r, nil
 }
